@@ -449,11 +449,47 @@ def check_dup_removal(v, m):
     return out
 
 
+def check_hashseed(case):
+    """the same construction validated in fresh interpreters under different hash seeds gives the same report"""
+    import json
+    import os
+    import subprocess
+    import sys
+    from hv import common
+    outs = []
+    for hs in ('1', '2', '7'):
+        p = subprocess.run([sys.executable, '-m', 'hv.hashseed_worker', common.REPO, json.dumps({k: case[k] for k in ('v', 'm', 'foreign', 'text')})],
+                           cwd=common.VERIF_DIR, env=dict(os.environ, PYTHONHASHSEED=hs), stdout=subprocess.PIPE, stderr=subprocess.PIPE, timeout=300)
+        if p.returncode != 0 or not p.stdout:
+            raise common.HarnessError('hash-seed worker failed: %s' % p.stderr.decode('utf8', 'replace')[-300:])
+        outs.append(json.loads(p.stdout.decode('utf8')))
+    case['_errors'] = len(outs[0]['errors'])
+    for k in ('errors', 'warnings', 'raised'):
+        if not (outs[0][k] == outs[1][k] == outs[2][k]):
+            return [('C04-report-depends-on-the-hash-seed:%s' % k, '%s %s with %r: %r vs %r vs %r' % (
+                case['v'], case['m'], case['foreign'], outs[0][k], outs[1][k], outs[2][k]))]
+    return []
+
+
 def message_cells():
     return [(v, m) for v in T.VERSIONS for m in T.messages(v) if G.usable(v, m)]
 
 
 def run_shard(shard, acc):
+    if shard.get('kind') == 'hashseed':
+        import random
+        rnd = random.Random(shard['seed'])
+        cells = message_cells()
+        for i in range(shard['n']):
+            v, m = cells[rnd.randrange(len(cells))]
+            declared = set(k[0] for k in T.struct_children(T.message_ref(v, m)))
+            foreign = [x for x in T.segments(v) if x not in declared and x != 'MSH' and not T.segment_defect(v, x)]
+            case = {'kind': 'hashseed', 'v': v, 'm': m, 'foreign': rnd.sample(foreign, min(len(foreign), rnd.randrange(2, 6))),
+                    'text': ['%s|1|a|||||||||||||||||||||||||||||||||||||||||||||||||||||||||||||||||||||||||||||z' % x for x in rnd.sample(foreign, 1)]}
+            for sig, detail in check_hashseed(case):
+                acc.violation(sig, case, detail)
+            acc.case(None, case.pop('_errors', 0) > 0, sample=case if i < 2 else None, label='three-hash-seeds', enumerated=True)
+        return
     if shard.get('kind') == 'dup':
         for v in T.VERSIONS:
             for m in T.messages(v):
@@ -487,6 +523,8 @@ def replay_case(case):
         return check_dup_required(case['v'], case['m'])
     if case.get('kind') == 'dup-removal':
         return check_dup_removal(case['v'], case['m'])
+    if case.get('kind') == 'hashseed':
+        return check_hashseed(case)
     return check(case)
 
 
@@ -498,7 +536,7 @@ def plan(tier, seed):
     import random
     names = sorted(set(m for v, m in message_cells()))
     rnd = random.Random(seed)
-    shards = [{'kind': 'dup'}]
+    shards = [{'kind': 'dup'}, {'kind': 'hashseed', 'seed': seed, 'n': 4 if tier == 'quick' else 40}]
     if tier == 'quick':
         sample = rnd.sample(names, 45)
         shards += [{'names': sample[i::15], 'seed': seed * 1000 + i, 'n': 8, 'shrink': False} for i in range(15)]
